@@ -15,6 +15,8 @@ import (
 	"regexp"
 	"strconv"
 	"strings"
+
+	"github.com/spf13/viper"
 )
 
 // ValidateIP returns true if the provided string can be parsed as an IP address (either IPv4 or IPv6).
@@ -148,4 +150,15 @@ func ValidateHostPort(host string, allowBlankHost bool) bool {
 		return ValidateIP(hostname)
 	}
 	return ValidateHostname(hostname)
+}
+
+// IsConfiguredEntry returns true if the given section of the configuration ("cluster", "client-profile", ...) has an
+// entry with the given name. It is meant for validating a name that is itself a configuration value, such as the
+// cluster that a consumer belongs to. Such a name must not be treated as a configuration path:
+// viper.IsSet(section + "." + name) is also true for a name like "mycluster.servers", which is a key inside an entry and
+// not an entry. The name is looked up among the keys of the section instead, which is how the coordinators enumerate
+// their modules. Configuration keys are case-insensitive (viper stores them in lower case).
+func IsConfiguredEntry(section, name string) bool {
+	_, ok := viper.GetStringMap(section)[strings.ToLower(name)]
+	return ok
 }
